@@ -600,9 +600,12 @@ func mk3(r *Rng, op string, depth int, scale float64, o genOpts) *node {
 		}
 		// move the operand out along +x (keeps mirror symmetry about y=0)
 		t := v3.Vec{X: scale * r.R(0.5, 3), Z: scale * r.R(-1, 1)}
+		if !o.lip1Only && r.P(0.6) { // anywhere, incl. negative quadrants (breaks the mirror symmetry)
+			t = v3.Vec{X: scale * r.R(-3, 3), Y: scale * r.R(-3, 3), Z: scale * r.R(-1, 1)}
+		}
 		tm := sdf.Translate3d(t)
-		k := wrap3("transform", fmt.Sprintf("Transform3D[T(%.3g,0,%.3g)]", t.X, t.Z), sdf.Transform3D(k0.s3, tm), func(p v3.Vec) []float64 { return k0.ref3(p.Sub(t)) }, k0)
-		k.exact, k.lip1, k.boxlb, k.symY = k0.exact, k0.lip1, k0.boxlb, k0.symY
+		k := wrap3("transform", fmt.Sprintf("Transform3D[T(%.3g,%.3g,%.3g)]", t.X, t.Y, t.Z), sdf.Transform3D(k0.s3, tm), func(p v3.Vec) []float64 { return k0.ref3(p.Sub(t)) }, k0)
+		k.exact, k.lip1, k.boxlb, k.symY = k0.exact, k0.lip1, k0.boxlb, k0.symY && t.Y == 0
 		num := r.IR(1, 9)
 		s := sdf.RotateCopy3D(k.s3, num)
 		th := 2 * math.Pi / float64(num)
@@ -628,7 +631,7 @@ func mk3(r *Rng, op string, depth int, scale float64, o genOpts) *node {
 		}
 		sz := k.s3.BoundingBox().Size().MinComponent()
 		off := sz * r.R(0.01, 0.4)
-		if op == "offset" && r.P(0.3) {
+		if op == "offset" && k.lip1 && r.P(0.3) {
 			off = -sz * r.R(0.01, 0.2)
 		}
 		n := wrap3("offset", fmt.Sprintf("Offset3D[%.4g]", off), sdf.Offset3D(k.s3, off),
@@ -1106,8 +1109,11 @@ func mk2(r *Rng, op string, depth int, scale float64, o genOpts) *node {
 			}
 		}
 		t := v2.Vec{X: scale * r.R(0.5, 3)}
-		k := wrap2("transform", fmt.Sprintf("Transform2D[T(%.3g,0)]", t.X), sdf.Transform2D(k0.s2, sdf.Translate2d(t)), func(p v2.Vec) []float64 { return k0.ref2(p.Sub(t)) }, k0)
-		k.exact, k.lip1, k.boxlb, k.symY = k0.exact, k0.lip1, k0.boxlb, k0.symY
+		if !o.lip1Only && r.P(0.6) {
+			t = v2.Vec{X: scale * r.R(-3, 3), Y: scale * r.R(-3, 3)}
+		}
+		k := wrap2("transform", fmt.Sprintf("Transform2D[T(%.3g,%.3g)]", t.X, t.Y), sdf.Transform2D(k0.s2, sdf.Translate2d(t)), func(p v2.Vec) []float64 { return k0.ref2(p.Sub(t)) }, k0)
+		k.exact, k.lip1, k.boxlb, k.symY = k0.exact, k0.lip1, k0.boxlb, k0.symY && t.Y == 0
 		num := r.IR(1, 9)
 		th := 2 * math.Pi / float64(num)
 		n := wrap2(op, fmt.Sprintf("RotateCopy2D[%d]", num), sdf.RotateCopy2D(k.s2, num), func(p v2.Vec) []float64 {
@@ -1132,7 +1138,7 @@ func mk2(r *Rng, op string, depth int, scale float64, o genOpts) *node {
 		}
 		sz := k.s2.BoundingBox().Size().MinComponent()
 		off := sz * r.R(0.01, 0.4)
-		if op == "offset" && r.P(0.3) {
+		if op == "offset" && k.lip1 && r.P(0.3) {
 			off = -sz * r.R(0.01, 0.2)
 		}
 		n := wrap2("offset", fmt.Sprintf("Offset2D[%.4g]", off), sdf.Offset2D(k.s2, off), func(p v2.Vec) []float64 {
